@@ -682,3 +682,26 @@ Theorem inlines_total_no_decl_pi :
     exists ch rs, parse_inlines memo o u inp lo sl refmap maxref rs0 = Ok (ch, rs).
 Proof. exact InlinesTotal4Main.inlines_total_no_decl_pi. Qed.
 Print Assumptions inlines_total_no_decl_pi.
+
+(* ---- 1k. the inline phase of a whole document (Model/Parse.v inline_phase: run_leaves over the leaves of the block
+   tree, the reference budget threaded from 0; Proofs/InlinesTotal4Leaves.v) ----
+   PROVED: it answers Ok as soon as every leaf the block phase hands over meets, after the right-trim run_inlines_gen
+   does itself, the premises of inlines_total - or is empty (parse_inlines on [] returns at once; the exception is
+   needed: an ATX heading without text has content [] and NO line offsets, InlinesTotal4LeafTest
+   .empty_heading_has_no_line_offsets).  The budget: parse_inlines leaves ref_size <= max_ref_size.
+   NOT PROVED: that parse_blocks establishes the premises.  Known: NUL-free leaves for a NUL-free document
+   (C13_leaf_contents with Q = not NUL).  EVALUATED: all clauses hold on the 36 leaves of 27 documents under all block
+   extensions (InlinesTotal4LeafTest.leaves_ok_on_corpus: headings, stripped reference definitions, tables, tab
+   continuation, quotes, alerts, footnotes, description lists, CR LF / bare CR / no final line end, NUL, non-ASCII). *)
+From V Require Model.Blocks Model.Parse Proofs.InlinesTotal4Leaves Proofs.InlinesTotal4LeafTest.
+
+Theorem inline_phase_total_given_leaves :
+  forall o u root refmap maxref,
+    (forall p i, In (p, i) (Parse.bleaves [] root) ->
+       let c := Strings.rtrim_slice (Blocks.bi_content i) in
+       c = [] \/
+       (has_nul c = false /\ Spec.EscapeSpec.utf8_valid c = true /\ first_line_not_blank c = true
+        /\ line_endings c < List.length (Blocks.bi_lo i))) ->
+    exists t, Parse.inline_phase o u root refmap maxref = Ok t.
+Proof. exact InlinesTotal4Leaves.inline_phase_total. Qed.
+Print Assumptions inline_phase_total_given_leaves.
